@@ -32,6 +32,11 @@ def mk_judge(alen, nops):
             return "a call did not return within the time limit"
         if c_out.startswith("CRASH") or "OVERREAD" in c_out:
             return "abnormal termination: " + c_out[:150]
+        for tok in c_out.split(" live=")[0].split(";"):
+            m = re.match(r"H\d+:[^:]*:[^:]*:[^:]*:[0-9a-f]*:(\d+):(\d+)$", tok)
+            if m and (int(m.group(1)) >= 2 ** 32 or int(m.group(2)) >= 2 ** 32):
+                return ("a returned header declares length %s / compressed length %s: more than the 32-bit fields of the format can say "
+                        "(the bound 'work <= bytes present and declared size' is void; a wrapped subtraction)" % (m.group(1), m.group(2)))
         cnt = A.rdr_counters(c_out)
         if "reads" in cnt:
             if cnt["reads"] > 2 * alen + 16 * nops + 64:
@@ -51,6 +56,17 @@ def extreme_archive(r):
         hb = bytearray(E.encode(f))
         hb[24:28] = r.choice([0xffffffff, 0x7fffffff, 0x00100001, 0x00100000, 0x000fffff, len(hb) + 100000]).to_bytes(4, "little")
         return bytes(hb) + S.rand_bytes(r, r.choice([0, 10, 5000]))
+    if k < 0.4:      # level-1 whose extended-header chain is LONGER than the declared skip size (the header must be rejected; were it
+        #                  accepted, the member length would wrap to ~4 GiB and a seekable source would be positioned backwards)
+        f = G.rand_fields(r, level=1)
+        f.exts = [(0x7e, S.rand_bytes(r, r.choice([0, 1, 30]))) for _ in range(r.choice([1, 3, 20]))]
+        f.common_crc = False
+        f.clen = 0
+        hb = bytearray(E.encode(f))
+        chain = int.from_bytes(hb[7:11], "little")
+        hb[7:11] = r.choice([0, 1, max(0, chain - 1), chain // 2]).to_bytes(4, "little")
+        hb[1] = sum(hb[2:2 + hb[0]]) & 0xff
+        return bytes(hb) * r.choice([1, 1, 3]) + S.rand_bytes(r, r.choice([0, 20]))
     if k < 0.5:      # level-1 with a long chain of extended headers
         f = G.rand_fields(r, level=1)
         f.exts = [(0x7e, S.rand_bytes(r, r.choice([0, 1, 200]))) for _ in range(r.choice([1, 10, 200]))]
@@ -100,6 +116,8 @@ def gen_cases(ctx, n):
             for _ in range(26):
                 toks += ["n", r.choice(["c", "x1", "r1000"])]
             add(d, toks, kind, "mac-many")
+        elif k < 0.62:
+            add(r.choice([A.dirkind_archive, A.odd_method_archive, A.prefix_dirs_archive])(r), A.extract_history(r), kind, "dir-kinds")
         elif k < 0.8:
             name, d = r.choice(smalls)
             add(A.mutate_archive(r, d), A.legal_history(r), kind, "mutated")
